@@ -65,6 +65,40 @@ def select(fn, q, lw):
 
 def build(tier, workdir, seed):
     ctext = open(os.path.join(VERIF, 'contracts', 'C08_half.h')).read()
-    u = Unit('half', INST, select, ctext, [(r'half_float::half', 'half'), (r'std::hash<half_float::half>', 'hhash')]).lower(workdir)
-    jobs = u.contract_jobs(PROP, timeout=900, pre_unwind=12)
-    return {'jobs': jobs, 'units': [u], 'trusted_base': sorted(u.std.used), 'assumptions': [], 'coverage_extra': {}}
+    u = Unit('half', INST, select, ctext, [(r'half_float::half', 'half'), (r'std::hash<half_float::half>', 'hhash')],
+             no_contract=['half_float__op_mul__half_half', 'half_float__op_div__half_half', 'half_float__fma__half_half_half']).lower(workdir)
+    UF = ['half_float__op_mul__half_half', 'half_float__op_div__half_half', 'half_float__fma__half_half_half']
+    jobs = u.contract_jobs(PROP, aliases=[c for c in u.contracts if c in u.lw.loops and c not in UF], timeout=900, pre_unwind=12)
+    # multiplication and division: * / % abstracted as uninterpreted functions in code and spec (see contracts/C08_half.h)
+    sel2 = lambda fn, q, lw: (q in ('half_float::operator*', 'half_float::operator/') and len(lw.params(fn)) == 2 and 'half_float::half (half_float::half, half_float::half)' in fn['type']['qualType']) or q == 'half_float::fma'
+    u2 = Unit('half_uf', INST, sel2, '#define XV_UF_UNIT 1\n' + ctext, [(r'half_float::half', 'half'), (r'std::hash<half_float::half>', 'hhash')], uf_mul='muldiv', partial=True).lower(workdir)
+    jobs += u2.contract_jobs(PROP, aliases=UF, timeout=1800, pre_unwind=25,
+                             extra={'half_float__fma__half_half_half': {'cases': [('zero_or_special', ['XV_CASE_ZERO_OR_SPECIAL=1'])] if tier == 'quick' else [('all', [])]}})
+    return {'jobs': jobs, 'units': [u, u2],
+            'trusted_base': sorted(u.std.used) + ['clang 14 AST; xtl2c lowering rules (DESIGN.md 3.2)', 'CBMC bit-precise IEEE float theory (used only to state exact half->float values and float comparisons in the spec)',
+                                                  'IEEE 754 spec functions in contracts/C08_half.h (xh_round etc.), written from the standard'],
+            'assumptions': ['round_to_nearest instantiation (library default); other rounding modes not under contract',
+                            'software path only (HALF_ENABLE_F16C_INTRINSICS off in the lowering): "identical with F16C" rests on VCVTPS2PH/VCVTPH2PS being IEEE conversions (ISA manual) - unchecked',
+                            'operator*, operator/ and fma: the machine operations * / % are uninterpreted functions applied by code and spec to the same normalised mantissas; only the range axioms stated in the contract are used (true for machine arithmetic); SAT cannot decide multiplier/divider equivalence here',
+                            'NaN results: "is a NaN" (payload unspecified by the property)',
+                            'normalisation loops (<= 11 / <= 24 steps) are unwound with unwinding assertions: width-bounded, complete',
+                            'quick tier proves fma only on the slice where an operand is zero/infinite/NaN (about 8 s); the thorough tier proves all 2^48 triples in one query (about 12 min)',
+                            'std::hash<uint16_t> is an uninterpreted function of the value'],
+            'coverage_extra': {'domains': {'operator+,-': 'all 2^32 operand pairs in one query each', 'operator*,/': 'all 2^32 pairs (uninterpreted * / %)',
+                                           'float->half': 'all 2^32 floats', 'double->half': 'all 2^64 doubles', 'half->float/double': 'all 2^16', 'comparisons': 'all 2^32 pairs each',
+                                           'sqrt': 'all 2^16', 'fma': 'quick: special slice; thorough: all 2^48'},
+                               'not_reached': ['int2half / half2int (decided with C09 lround family when present)', 'converting constructors from integer types', 'directed rounding modes', 'F16C intrinsic path']}}
+
+
+def replay(ctx, job, ob, steps, base):
+    from xv.driver import TraceView
+    tv = TraceView(steps)
+    x = tv.num('in_x.data_', tv.num('in_arg.data_', tv.num('in_value', 0)))
+    y = tv.num('in_y.data_', 0)
+    z = tv.num('in_z.data_', 0)
+    f = tv.bits('in_value', 0) or 0
+    src = open(os.path.join(VERIF, 'props', 'C08_replay.cpp')).read()
+    prog = '#define XV_OP "%s"\n#define XV_X 0x%xu\n#define XV_Y 0x%xu\n#define XV_Z 0x%xu\n#define XV_F 0x%xu\n#define XV_D 0x%xull\n' % (
+        job.enforce or job.name, (x or 0) & 0xFFFF, (y or 0) & 0xFFFF, (z or 0) & 0xFFFF, f & 0xFFFFFFFF, f) + src
+    rc, out = native_run(prog, base)
+    return (rc == 1, (out or '')[-2000:] + '\nprogram: %s.cpp' % base)
